@@ -380,8 +380,10 @@ fn cmd_seq(args: &[String]) -> i32 {
             inputs.push((k, s));
         }
     }
-    for s in FIXED_SEEDS {
-        inputs.push((usize::MAX, (*s).to_string()));
+    if !args.iter().any(|a| a == "--no-fixed") {
+        for s in FIXED_SEEDS {
+            inputs.push((usize::MAX, (*s).to_string()));
+        }
     }
     let mut base = Vec::new();
     for (k, s) in &inputs {
